@@ -45,6 +45,10 @@ def make_doc(rng):
             if rng.random() < 0.3:
                 w[1].append(canon.Entry("nested", ["box"], sub=canon.SetNode(
                     entries=[canon.Entry("plain", ["inner"], value=g.value())], inline=True)))
+    # ... and in the body itself: `@name` must still address the let layer
+    for nm in SHARED:
+        if rng.random() < 0.35 and not any(e.path[:1] == [nm] for e in d.target.entries):
+            d.target.entries.append(canon.Entry("plain", [nm], value=g.value()))
     return canon.render(d), d
 
 
@@ -66,10 +70,16 @@ def choose(rng, dv):
         return E.Op("set", at + E.spell(rng.choice(other)), val, "scope-other-layer-name")
     if k < 0.8 and layer_names:
         return E.Op("rm", at + E.spell(rng.choice(layer_names)), "", "scope-rm")
+    if k < 0.83 and other:
+        # a name that exists, but in another layer than the addressed one (or in no addressable
+        # layer at all when the selector is too deep)
+        return E.Op("rm", at + E.spell(rng.choice(other)), "", "scope-rm-other-layer-name")
     if k < 0.86:
         return E.Op("rm", at + "missing" + str(rng.randrange(9)), "", "scope-rm-missing")
     if k < 0.92 and any(p == ("box",) for p in layer_names):
         return E.Op(rng.choice(["set", "rm"]), at + "box.inner", val, "scope-nested")
+    if rng.random() < 0.3:
+        return E.Op("rm", at + rng.choice(SHARED), "", "scope-rm-shared-name")
     return E.Op("set", at + rng.choice(SHARED), val, "scope-shared-name")
 
 
